@@ -492,6 +492,21 @@ pub fn check_ingest(seq: &[(u32, bool)], gap: u64, asynchronous: bool) -> Vec<Fi
 /// seconds, gone after ttl (and after 1 second when it came with the cache-flush bit), through
 /// the real ingest path and the virtual clock.
 pub fn check_ingest_exact(ttl: u32, flush: bool, asynchronous: bool) -> Vec<Finding> {
+    // the comparison "still there one second before the end" is a whole second away from the
+    // boundary only if the case itself runs fast: a slow run (a descheduled thread) is repeated
+    // and a violation is reported only if it reproduces
+    let mut last = Vec::new();
+    for _ in 0..4 {
+        let t0 = std::time::Instant::now();
+        last = check_ingest_exact_once(ttl, flush, asynchronous);
+        if last.is_empty() || t0.elapsed() < std::time::Duration::from_millis(250) {
+            break;
+        }
+    }
+    last
+}
+
+fn check_ingest_exact_once(ttl: u32, flush: bool, asynchronous: bool) -> Vec<Finding> {
     use simple_mdns::verif::{add_response_to_resources, add_response_to_resources_async};
     let case = json!({"kind": "ingest-exact", "ttl": ttl, "flush": flush, "async": asynchronous});
     let r = guarded(|| -> Result<Vec<(String, String)>, String> {
